@@ -107,3 +107,31 @@ META["C03"] = {
     "LEVEL_NOTE": "Trusted: sim/refmodel.py, sim/scen.py (node list + RTS), sim/embed.py, mpmath.",
     "TECHNIQUE": "deterministic simulation: seeded accept/reject + checkpoint histories on the real loop, reference-model (RTS) oracle over the recorded history",
 }
+
+META["C05"] = {
+    "LEVEL": "exploration",
+    "TIERS": {"quick": 96, "thorough": 4000},
+    "WALLCAP": {"quick": 420, "thorough": 5400},
+    "RULE": ("One evaluation = one seeded (problem, configuration, forced or natural step history with injected spurious "
+             "rejections / proposal jitter): three to five real solves with checkpoint sets A={t0,T}, A' and B (A<A'<B, B placed "
+             "relative to the realised step ends: at an end, inside the eps window, several in one step, regular interior "
+             "points), a save-every-step run and the terminal-value routine. Oracles: bitwise equality of the attempt history, "
+             "equality at common checkpoints (1e-9), reference interpolation of the recorded history (1e-7/1e-6 + kappa-aware), "
+             "offgrid marginals, terminal values. Distinct = distinct (configuration cell, history digest); non-trivial = at "
+             "least one checkpoint was inserted."),
+    "COMPONENTS": {"real": ["solve_adaptive_save_at", "solve_adaptive_terminal_values", "test_util.solve_adaptive_save_every_step",
+                            "solver.offgrid_marginals", "filter / fixed-point / fixed-interval strategies", "three state-space models",
+                            "error_residual_std + controllers (natural histories)"],
+                   "stub": ["history-forcing ErrorEstimator/Control in forced histories"],
+                   "seam": ["probdiffeq.backend.flow (Python-stepped)", "recording/faulting proxies around estimator and controller"]},
+    "PROBES": ["checkpoint_within_eps_of_step_end", "two_checkpoints_in_one_step", "rejection_before_checkpointed_step",
+               "subset_compared", "offgrid_points_compared", "terminal_compared"],
+    "ASSUMPTIONS": ["no step clipping (as the property states); checkpoints inside the eps window or >= 1e-3 h from a step end",
+                    "q <= 5, d <= 3, <= 60 accepted steps", "reference interpolation in 50-digit arithmetic"],
+    "LEVEL_TEXT": "Seeded exploration: checkpoints are interrupts inserted into a fixed step history of the real loop and solver; "
+                  "history equality is checked bitwise, values against each other and against an independent reference "
+                  "interpolation. Sampling, not proof.",
+    "LEVEL_NOTE": "Trusted: sim/refmodel.py, sim/scen.py, sim/embed.py; the two-pass placement is sound only if checkpoints do not "
+                  "move steps, which is itself asserted (HIST).",
+    "TECHNIQUE": "deterministic simulation: checkpoint sets as injected interrupts on a fixed seeded step history; history-equality and reference-interpolation oracles",
+}
